@@ -24,7 +24,7 @@ WHY = {
  ('C11', 'C08'): 'the binary-only refusal reads the used-id kernel (seed C11-5)',
  ('C13', 'C02'): '`f + b*s` uses the Add kernels (seed C13-9)',
  ('C13', 'C05'): 'slack ranges come from get_bounds (seed C13-11)',
- ('C14', 'C05'): 'feasibility after relax / restore is decided by evaluate (seeds C14-12, C14-15)',
+ ('C14', 'C05'): 'feasibility after relax / restore is decided by evaluate (seeds C14-12, C14-15); whether a state is accepted at all by check_bound (seed C14-20)',
  ('C14', 'C06'): '… and by evaluate_samples (seeds C14-9, C14-15)',
  ('C15', 'C07'): 'best-of reads SampleSet tables whose layout is the schema (seed C15-4)',
  ('C15', 'C06'): 'best-of reads the compressed tables and the flags of SampleSet::get (seeds C15-6, C15-13)',
